@@ -28,6 +28,7 @@ CONSTANTS Emit,        \* print behaviours
           DLens,       \* domain length representatives, e.g. {0,1,2,7,255} (7 stands for "mid")
           Chunkings,   \* subset of {"all","msg","bytes","split"} for complete messages
           CutChunkings,\* ... and for truncated ones
+          PlainJoin,   \* profiles that build "host:port" by plain concatenation (deviation; {} on a conforming tree)
           WithUdp
 
 VARIABLES c, ch, stream, bounds, ref, pc, pos, got, want, fs, wrote, out, dev
@@ -40,10 +41,12 @@ SumTo(ls, k) == LET S[i \in 0..k] == IF i = 0 THEN 0 ELSE S[i - 1] + ls[i] IN S[
 
 \* ---- abstract cases ------------------------------------------------------------------------
 NoCut == [f |-> "none", w |-> ""]
-DefReq == [ver2 |-> 5, cmd |-> 1, rsv |-> 0, atyp |-> 1, dlen |-> 0]
+\* dch: content class of a domain name: "name" (no ':') or "colon" (contains ':', e.g. an IPv6 literal sent as a name)
+DefReq == [ver2 |-> 5, cmd |-> 1, rsv |-> 0, atyp |-> 1, dlen |-> 0, dch |-> "name"]
 Reqs == {[DefReq EXCEPT !.ver2 = 4]}
-   \cup {[ver2 |-> 5, cmd |-> cm, rsv |-> rs, atyp |-> at, dlen |-> 0] : cm \in {1, 2, 3, 9}, rs \in {0, 1}, at \in {1, 4, 5}}
-   \cup {[ver2 |-> 5, cmd |-> cm, rsv |-> rs, atyp |-> 3, dlen |-> dl] : cm \in {1, 2, 3, 9}, rs \in {0, 1}, dl \in DLens}
+   \cup {[ver2 |-> 5, cmd |-> cm, rsv |-> rs, atyp |-> at, dlen |-> 0, dch |-> "name"] : cm \in {1, 2, 3, 9}, rs \in {0, 1}, at \in {1, 4, 5}}
+   \cup {[ver2 |-> 5, cmd |-> cm, rsv |-> rs, atyp |-> 3, dlen |-> dl, dch |-> "name"] : cm \in {1, 2, 3, 9}, rs \in {0, 1}, dl \in DLens}
+   \cup {[ver2 |-> 5, cmd |-> cm, rsv |-> 0, atyp |-> 3, dlen |-> dl, dch |-> "colon"] : cm \in {1, 2, 3, 9}, dl \in DLens \ {0}}
 Greets == {[ver1 |-> 4, nm |-> 1, mset |-> "noauth"], [ver1 |-> 5, nm |-> 0, mset |-> "-"]}
      \cup {[ver1 |-> 5, nm |-> 1, mset |-> x] : x \in {"none", "noauth", "userpass"}}
      \cup {[ver1 |-> 5, nm |-> n, mset |-> x] : n \in {2, 255}, x \in {"none", "noauth", "userpass", "both"}}
@@ -56,7 +59,7 @@ DefAuth(m) == IF m = 2 THEN "good" ELSE "-"
 
 Base(p, g, a, q, trail, cut) ==
   [kind |-> "hs", prof |-> p, ver1 |-> g.ver1, nm |-> g.nm, mset |-> g.mset, auth |-> a,
-   ver2 |-> q.ver2, cmd |-> q.cmd, rsv |-> q.rsv, atyp |-> q.atyp, dlen |-> q.dlen,
+   ver2 |-> q.ver2, cmd |-> q.cmd, rsv |-> q.rsv, atyp |-> q.atyp, dlen |-> q.dlen, dch |-> q.dch,
    frag |-> 0, pay |-> 0, trail |-> trail, cut |-> cut]
 
 \* concrete representative bytes of a case, field by field
@@ -66,10 +69,10 @@ Methods(n, mset) ==
     [] mset = "noauth"   -> Rep(n - 1, 1) \o <<0>>          \* the acceptable method comes last
     [] mset = "userpass" -> Rep(n - 1, 1) \o <<2>>
     [] mset = "both"     -> <<2>> \o Rep(n - 2, 1) \o <<0>>
-AddrBytes(atyp, dlen) ==
+AddrBytes(atyp, dlen, dch) ==
   CASE atyp = 1 -> <<10, 1, 2, 3>>
     [] atyp = 4 -> <<32, 1, 13, 184>> \o Rep(11, 0) \o <<1>>
-    [] atyp = 3 -> Rep(dlen, 97)
+    [] atyp = 3 -> Rep(dlen, IF dch = "colon" THEN 58 ELSE 97)
     [] OTHER -> <<9, 9, 9, 9>>                              \* something follows an unknown ATYP
 F(f, b) == [f |-> f, b |-> b]
 HsFields(x) ==
@@ -82,13 +85,13 @@ HsFields(x) ==
         ELSE <<>>)
     \o <<F("ver2", <<x.ver2>>), F("cmd", <<x.cmd>>), F("rsv", <<x.rsv>>), F("atyp", <<x.atyp>>)>>
     \o (IF x.atyp = 3 THEN <<F("dlen", <<x.dlen>>)>> ELSE <<>>)
-    \o <<F("addr", AddrBytes(x.atyp, x.dlen)), F("port", <<31, 144>>), F("trail", Rep(x.trail, 238))>>,
+    \o <<F("addr", AddrBytes(x.atyp, x.dlen, x.dch)), F("port", <<31, 144>>), F("trail", Rep(x.trail, 238))>>,
     LAMBDA fl : Len(fl.b) > 0)
 UdpFields(x) ==
   SelectSeq(
        <<F("rsv", <<x.rsv, x.rsv>>), F("frag", <<x.frag>>), F("atyp", <<x.atyp>>)>>
     \o (IF x.atyp = 3 THEN <<F("dlen", <<x.dlen>>)>> ELSE <<>>)
-    \o <<F("addr", AddrBytes(x.atyp, x.dlen)), F("port", <<0, 53>>), F("data", Rep(x.pay, 238))>>,
+    \o <<F("addr", AddrBytes(x.atyp, x.dlen, x.dch)), F("port", <<0, 53>>), F("data", Rep(x.pay, 238))>>,
     LAMBDA fl : Len(fl.b) > 0)
 Fields(x) == IF x.kind = "hs" THEN HsFields(x) ELSE UdpFields(x)
 
@@ -145,7 +148,7 @@ HsCases(p) ==
 
 UdpBase(rsv, frag, atyp, dlen, pay, cut) ==
   [kind |-> "udp", prof |-> "udp", ver1 |-> 0, nm |-> 0, mset |-> "-", auth |-> "-", ver2 |-> 0, cmd |-> 0,
-   rsv |-> rsv, atyp |-> atyp, dlen |-> dlen, frag |-> frag, pay |-> pay, trail |-> 0, cut |-> cut]
+   rsv |-> rsv, atyp |-> atyp, dlen |-> dlen, dch |-> "name", frag |-> frag, pay |-> pay, trail |-> 0, cut |-> cut]
 UdpCases ==
   LET B == {UdpBase(rs, fr, at, 0, py, NoCut) : rs \in {0, 1}, fr \in {0, 1}, at \in {1, 4, 5}, py \in {0, 1, 2, 5}}
       \cup {UdpBase(rs, fr, 3, dl, py, NoCut) : rs \in {0, 1}, fr \in {0, 1}, dl \in DLens, py \in {0, 1, 2, 5}}
@@ -183,7 +186,7 @@ Init == /\ c \in Cases
 
 P == Profile(c.prof)
 BehOf == [kind |-> c.kind, prof |-> c.prof, ver1 |-> c.ver1, nm |-> c.nm, mset |-> c.mset, auth |-> c.auth,
-          ver2 |-> c.ver2, cmd |-> c.cmd, rsv |-> c.rsv, atyp |-> c.atyp, dlen |-> c.dlen, frag |-> c.frag,
+          ver2 |-> c.ver2, cmd |-> c.cmd, rsv |-> c.rsv, atyp |-> c.atyp, dlen |-> c.dlen, dch |-> c.dch, frag |-> c.frag,
           pay |-> c.pay, trail |-> c.trail, cut |-> c.cut, chunk |-> ch,
           want |-> IF c.kind = "hs" THEN HsClass(ref) ELSE UdpClass(ref, stream)]
 EmitBeh == IF Emit THEN PrintT("BEH " \o ToJson(BehOf)) ELSE TRUE
@@ -293,6 +296,18 @@ UdpObs == LET pl == IF out.ok THEN Rest(stream, out.cmd) ELSE <<>>
           IN one(out, pl) @@ [panic |-> FALSE,
                               rt |-> one(again, IF again.ok THEN Rest(BuildUdp(out.atyp, out.addr, out.port, pl), again.cmd) ELSE <<>>)]
 
+\* a profile that hands its result on as one "host:port" string must produce one that splits back into exactly
+\* the parsed host and port (HostText: the text form of the address; IPv6 text contains ':')
+HostText(o) == CASE o.atyp = 3 -> o.addr [] o.atyp = 4 -> <<50, 58, 58, 49>> [] OTHER -> <<49, 46, 50>>
+PortText == <<56, 48>>
+Enc == IF c.prof \in PlainJoin       \* DEVIATION: brackets for ATYP=4 only, then host ":" port
+       THEN (IF out.atyp = 4 THEN <<91>> \o HostText(out) \o <<93>> ELSE HostText(out)) \o <<58>> \o PortText
+       ELSE JoinHP(HostText(out), PortText)
+EncDev == c.prof \in PlainJoin /\ out.atyp = 3 /\ Contains(out.addr, 58)
+HostPort == (pc = "done" /\ out.ok /\ c.kind = "hs" /\ P.joined) =>
+               \/ EncDev
+               \/ LET sp == SplitHP(Enc) IN sp.ok /\ sp.host = HostText(out) /\ sp.port = PortText
+
 \* the parser's outcome is the reference's, for every path, truncation and chunking (or a named deviation fired)
 Conforms == pc = "done" =>
               \/ dev
@@ -342,7 +357,7 @@ UdpRoundTrip ==
          /\ Rest(b, v.pay) = Rest(stream, u.pay)
 
 \* on a conforming tree (Greedy = {}, UdpMinLen = 7) no named deviation can fire
-NoDev == ~dev
+NoDev == ~dev /\ ~(pc = "done" /\ out.ok /\ c.kind = "hs" /\ EncDev)
 
 TypeOK == /\ pos \in 0..Len(stream) /\ got \in 0..257 /\ pc \in {"g_hdr", "g_meth", "a_hdr", "a_user", "a_plen",
              "a_pass", "r_hdr", "r_dlen", "r_addr", "r_port", "u_parse", "done"}
